@@ -1,4 +1,5 @@
 \* every answer class of C11 singly and in batches of <= 3; <= 2 frames
+\* measured: 143 939 distinct / 254 386 generated states, depth 21
 CONSTANTS
   FrameAlphabet <- FramesContent
   MaxFrames = 2
